@@ -179,6 +179,44 @@ def run_stmts(e, stmts):
             else:
                 r = get_reg(e, tgt[1], tgt[2])
                 assign(e, tgt, r + val if t == "iadd" else r - val)
+        elif t == "if" and len(s) > 4 and s[4] == "chain":
+            # else-if chain:  with c1 as Else: A;  with Else, c2 as Else2: B;  with Else2: C   (s[3] is exactly one inner "if")
+            def chain(s, opened=None):
+                inner = s[3][0]
+                if opened is None:
+                    with bcond(e, s[1]) as Else:
+                        run_stmts(e, s[2])
+                else:
+                    Else = opened
+                more = len(inner) > 4 and inner[4] == "chain"
+                if inner[3] is None:
+                    with Else, bcond(e, inner[1]):
+                        run_stmts(e, inner[2])
+                else:
+                    with Else, bcond(e, inner[1]) as Else2:
+                        run_stmts(e, inner[2])
+                    if more:
+                        # the chain goes on: Else2 is the hook of the next link
+                        chain2(inner, Else2)
+                    else:
+                        with Else2:
+                            run_stmts(e, inner[3])
+
+            def chain2(s, Else):
+                inner = s[3][0]
+                more = len(inner) > 4 and inner[4] == "chain"
+                if inner[3] is None:
+                    with Else, bcond(e, inner[1]):
+                        run_stmts(e, inner[2])
+                else:
+                    with Else, bcond(e, inner[1]) as Else2:
+                        run_stmts(e, inner[2])
+                    if more:
+                        chain2(inner, Else2)
+                    else:
+                        with Else2:
+                            run_stmts(e, inner[3])
+            chain(s)
         elif t == "if":
             cond = bcond(e, s[1])
             if s[3] is None:
